@@ -357,7 +357,7 @@ static const long VIEW_PIXEL_CAP = 1 << 20;
 // lite: the header declares more than LITE_PIXELS pixels (every call costs time proportional to that):
 // only read_image_info, read_image and the scanline reader are run
 static const uint64_t LITE_PIXELS = (uint64_t)2 << 20;
-template <class F> static void run_device(input_t const& in, dev_kind d, uint64_t salt, bool with_subrect) {
+template <class F> static void run_device(input_t const& in, dev_kind d, uint64_t salt, bool with_subrect, bool with_scan = true) {
     typedef typename F::tag tag;
     bool lite = budget_pixels(in.declared) > LITE_PIXELS;
     if (lite) vh::obs("mode.lite");
@@ -387,7 +387,7 @@ template <class F> static void run_device(input_t const& in, dev_kind d, uint64_
             run_entry(in, d, "convert_view-small", [&](auto& s, outcome& o) { do_view<F, gil::rgba8_image_t, true>(s, o, vw - 1, vh_ - 1, vh::mix(salt, 29)); });
     }
     // (7) scanline reader
-    run_entry(in, d, "scanline", [&](auto& s, outcome& o) { scan<F>::go(s, o); });
+    if (with_scan) run_entry(in, d, "scanline", [&](auto& s, outcome& o) { scan<F>::go(s, o); });
     if (!lite) {
         // (8) any_image
         run_entry(in, d, "any_image", [&](auto& s, outcome& o) {
@@ -407,7 +407,7 @@ template <class F> static void run_device(input_t const& in, dev_kind d, uint64_
 
 static int g_devmask = 7;              // --devmask N: 1 istream, 2 FILE*, 4 file name (tooling: exercise one device's counters alone)
 // a whole case
-template <class F> static void run_input(std::string const& bytes, bool truncated_valid, bool with_filename, bool with_subrect) {
+template <class F> static void run_input(std::string const& bytes, bool truncated_valid, bool with_filename, bool with_subrect, bool with_scan = true) {
     input_t in;
     in.fmt = F::name(); in.ext = F::ext(); in.bytes = &bytes; in.truncated_valid = truncated_valid;
     long w = 0, h = 0; uint64_t extra = 0;
@@ -422,9 +422,9 @@ template <class F> static void run_input(std::string const& bytes, bool truncate
     c11::arm_cpu_net(200);
     g_info_declared = 0;
     // the std::istream device first: its counters have seen every kind of spin since the first version of the monitor
-    if (g_devmask & 1) run_device<F>(in, D_ISTREAM, salt, with_subrect);
-    if (F::has_FILE && (g_devmask & 2)) run_device<F>(in, D_FILE, salt, with_subrect);
-    if ((with_filename && (g_devmask & 4)) || g_devmask == 4) run_device<F>(in, D_NAME, salt, with_subrect);
+    if (g_devmask & 1) run_device<F>(in, D_ISTREAM, salt, with_subrect, with_scan);
+    if (F::has_FILE && (g_devmask & 2)) run_device<F>(in, D_FILE, salt, with_subrect, with_scan);
+    if ((with_filename && (g_devmask & 4)) || g_devmask == 4) run_device<F>(in, D_NAME, salt, with_subrect, with_scan);
 }
 
 static std::string hex_head(std::string const& b, size_t n = 48) {
@@ -450,8 +450,12 @@ static void mut_case(std::string const& cls_tail, std::string const& id, bool tr
     vh::sample(vh::cat(F::name(), ".", cls_tail, " ", id, ": ", bytes.size(), " bytes ", hex_head(bytes, 32)));
     // sub-rectangle reads: every control, otherwise one mutation in four
     bool with_sub = cls_tail == "valid" || counter % 4 == 1;
+    // scanline reader: always for GIL's own decoders; for the codecs behind libpng/libjpeg/libtiff (a thin row loop around the
+    // library) in every control / enum / targeted case and in one truncation / boundary-value / random mutation in four
+    bool sampled_class = cls_tail == "truncate" || cls_tail == "random" || cls_tail.compare(0, 6, "field.") == 0;
+    bool with_scan = !F::lib_codec || !sampled_class || vh::thorough() || counter % 4 == 2;
     struct timespec t0, t1; clock_gettime(CLOCK_PROCESS_CPUTIME_ID, &t0);
-    run_input<F>(bytes, truncated_valid, with_name, with_sub);
+    run_input<F>(bytes, truncated_valid, with_name, with_sub, with_scan);
     clock_gettime(CLOCK_PROCESS_CPUTIME_ID, &t1);
     double ms = (t1.tv_sec - t0.tv_sec) * 1e3 + (t1.tv_nsec - t0.tv_nsec) / 1e6;
     if (ms > 400) printf("@@SLOW %.0f ms %s.%s %s\n", ms, F::name(), cls_tail.c_str(), id.c_str());
@@ -611,6 +615,7 @@ struct F_bmp {
     static const char* ext() { return "bmp"; }
     static const bool has_FILE = true;
     static const bool subrect = true;
+    static const bool lib_codec = false;
     static const bool strict_field_reads = true;
     static const bool has_info_all = false;
     // file header (14) + the part of the info header GIL reads field by field (40, or 12 for OS/2); 18 while the size field itself is cut
@@ -1005,6 +1010,7 @@ struct F_pnm {
     static const char* ext() { return "pnm"; }
     static const bool has_FILE = true;
     static const bool subrect = true;
+    static const bool lib_codec = false;
     static const bool strict_field_reads = false;
     static const bool has_info_all = false;
     static size_t fixed_header_len(std::string const&) { return 0; }
@@ -1184,6 +1190,7 @@ struct F_tga {
     static const char* ext() { return "tga"; }
     static const bool has_FILE = true;
     static const bool subrect = true;
+    static const bool lib_codec = false;
     static const bool strict_field_reads = true;
     static const bool has_info_all = false;
     static size_t fixed_header_len(std::string const&) { return 18; }
